@@ -419,11 +419,19 @@ func skeletons() []skel {
 	return []skel{selectSk, insertSk, updateSk, deleteSk, createTableSk, ctasSk, alterSk, createIndexSk, dropIndexSk, dropTableSk, dropViewSk, createViewSk}
 }
 
-func structFamilies(k int) []Stmt {
+func structFamilies(k, kddl int) []Stmt {
 	var out []Stmt
 
+	if kddl == 0 {
+		kddl = k
+	}
+
 	for _, sk := range skeletons() {
-		out = append(out, sk.enumerate(k)...)
+		if sk.family == "ddl" {
+			out = append(out, sk.enumerate(kddl)...)
+		} else {
+			out = append(out, sk.enumerate(k)...)
+		}
 	}
 
 	return out
